@@ -269,6 +269,32 @@ def check_flow(out: Outcome, sub) -> None:
                     f"but was assembled: {flat.hex()}\n{src}")
 
 
+def check_twice(out: Outcome, sub) -> None:
+    """Two routines that run at the same address (@=X ... @=X, or *=X again after other output): the second one's branch is
+    encoded from the run address it was given, like the first one's."""
+    m, rom, lead, n1, n2 = sub["m"], sub["rom"], sub["lead"], sub["n1"], sub["n2"]
+    model = busmodel.builtin(rom)
+    r = model.rom_ranges()[0]
+    S = ((r.first + 1) << 16) | r.win_lo
+    X_ = ((r.first + 2) << 16) | (r.win_lo + 0x40)
+    opcode = isa.BY_KEY.get((m, "rel8"))
+    if lead == "reloc":
+        src = f"*=0x{S:06x}\n@=0x{X_:06x}\nta:\n" + "nop\n" * n1 + f"{m} ta\n@=0x{X_:06x}\ntb:\n" + "nop\n" * n2 + f"{m} tb\n"
+    else:
+        src = f"*=0x{X_:06x}\nta:\n" + "nop\n" * n1 + f"{m} ta\n*=0x{S:06x}\n.db 0x60\n*=0x{X_:06x}\ntb:\n" + "nop\n" * n2 + f"{m} tb\n"
+    res = driver.assemble_mem(src, rom=rom)
+    if not res.accepted:
+        if m in MUST_ASSEMBLE:
+            out.bad(f"twice:rejected:{lead}", sub, f"{rom}: rejected: {res['status']} {res['exc']} {res.failure_text[:160]}\n{src}")
+        return
+    flat = b"".join(dd for _, dd in res["blocks"])
+    first = bytes([0xEA] * n1 + [opcode, (-(n1 + 2)) & 0xFF])
+    second = bytes([0xEA] * n2 + [opcode, (-(n2 + 2)) & 0xFF])
+    want = first + second if lead == "reloc" else first + b"\x60" + second
+    if flat != want:
+        out.bad(f"twice:wrong-displacement:{lead}", sub, f"{rom}: emitted {flat.hex()}, expected {want.hex()}\n{src}")
+
+
 def enum_units(tier, seed):
     units = []
     for rom in ("low", "high"):
@@ -328,6 +354,11 @@ def run_case(case) -> Outcome:
             ev += 1
             nt += 1
         for lead in ("org", "reloc"):
+            for n1, n2 in ((4, 2), (0, 0), (1, 100)):
+                check_twice(out, {"t": "twice", "m": case["m"], "rom": case["rom"], "lead": lead, "n1": n1, "n2": n2})
+                ev += 1
+                nt += 1
+        for lead in ("org", "reloc"):
             for k in (0, 1, 3):
                 check_flow(out, {"t": "flow", "m": case["m"], "rom": case["rom"], "lead": lead, "k": k})
                 ev += 1
@@ -356,6 +387,9 @@ def run_case(case) -> Outcome:
         return out
     if case.get("t") == "flow":
         check_flow(out, case)
+        return out
+    if case.get("t") == "twice":
+        check_twice(out, case)
         return out
     if not check_one(out, case):
         return Outcome(skip="combination outside the statement")
